@@ -19,10 +19,10 @@ import (
 	"vh/scen"
 )
 
-var c19E2EOwn = []string{"Name string", "ID int", "Σ string", "name string"}
+var c19E2EOwn = []string{"Name string", "ID int", "Σ string", "name string", "status string"}
 var c19E2EDeep = []string{"Owner Own", "Tag string"}
 var c19E2ETop = []string{"Name string", "name string", "NAME string", "FirstName string", "Names string", "ID int", "IDs []int",
-	"Straße string", "STRASSE string", "Σας string", "ΣΑΣ string", "K string", "Kk int", "Nameſ string", "Owner Own", "Deep Dp"}
+	"Straße string", "STRASSE string", "Σας string", "ΣΑΣ string", "K string", "Kk int", "Nameſ string", "street string", "town string", "data string", "Owner Own", "Deep Dp"}
 
 func c19E2ENames(fields []string) []string {
 	var out []string
@@ -96,6 +96,8 @@ var c19E2EFixed = []c19E2EPat{
 	{`/^Name$|//x/`, "comment-marker-in-regexp"}, {`/^(?:ID|//)$/`, "comment-marker-in-regexp"}, {`/^$/`, "empty-match"}, {`/$^/`, "never"}, {`//`, "empty-regexp"}, {`/^\w+$/`, "perl-class"}, {`/^\W/`, "perl-class"}, {`/\d/`, "perl-class"}, {`/^\S+$/`, "perl-class"},
 	{`/^(?s:.)+$/`, "flag-s"}, {`/(?m)^Name$/`, "flag-m"}, {`/^(?U:N.*)e/`, "flag-U"}, {`/^(?P<n>Na)me$/`, "named-group"}, {`/^((N)(a))me$/`, "groups"},
 	{`/^[\pL&&]+$/`, "class-literal"}, {`/^[\p{Lu}\p{Ll}]+$/`, "class-unicode"}, {`/^[^\P{Lu}]/`, "class-double-negation"}, {`/\AName\z/`, "text-anchors"},
+	// unexported members whose first letters occur in the destination variable's name ("dst")
+	{`street`, "plain-unexported"}, {`reet`, "plain-unexported"}, {`/^to/`, "anchor-left-unexported"}, {`/^own$/`, "anchored-unexported"}, {`Owner.status`, "plain-unexported"}, {`/^Owner\.atus$/`, "anchored-unexported"}, {`data`, "plain-unexported"}, {`/^ata$/`, "anchored-unexported"},
 	// the /regexp/ form itself
 	{`/`, "form"}, {`/Name`, "form"}, {`Name/`, "form"}, {`/Owner/Name/`, "form"}, {`Owner.Name`, "plain"}, {`owner.name`, "plain"}, {`OWNER.NAME`, "plain"},
 	{`Owner`, "plain-struct"}, {`owner`, "plain-struct"}, {`Deep.Owner`, "plain-struct"}, {`Deep.Owner.Σ`, "plain"}, {`deep.owner.σ`, "plain"}, {`deep.owner.ς`, "plain"},
